@@ -206,7 +206,7 @@ def run(repo, rep):
 
     # exact type of native leaves: no call wrapper
     n = 0
-    itn = S.interp(repo, 'printer', {'_builtin_repr': lambda it_, a, k, nd: SymStr('base_repr(%s)' % prov(a[1]), nonempty=True)})
+    itn = S.interp(repo, 'printer', {__import__('engine.roles', fromlist=['x']).name(repo, 'builtin_repr'): lambda it_, a, k, nd: SymStr('base_repr(%s)' % prov(a[1]), nonempty=True)})
     for base in ('int', 'float', 'bool'):
         fn = S.printer_for(repo, base)
         v = ValueV('value', TypeV(base), None)
@@ -339,7 +339,7 @@ def run(repo, rep):
         else:
             rep.check(keyprovs == ['k0', 'k1'], 'C01.e', 'pretty_dict:key-order{insertion}', fd.where, 'iteration order of the dict',
                       'without sort_dict_keys the pairs are printed in the order %s instead of the dict\'s own order' % keyprovs, nontrivial=True)
-    srt = m.classes.get('_AlwaysSortable')
+    srt = m.classes.get(__import__('engine.roles', fromlist=['x']).name(repo, 'sortable_cls'))
     n += 1
     ok = False
     if srt is not None and srt.methods.get('__lt__') is not None:
